@@ -57,6 +57,9 @@ func genMsg(r *core.Rand, id int) *msg {
 type treeGen struct {
 	r     *core.Rand
 	leafN int
+	// watchBias: about a third of the leaves are watch probes (concurrent cases: is a reset ever
+	// run while a verifier below martianhttp.Modifier / a fifo.Group is being evaluated?)
+	watchBias bool
 }
 
 func (g *treeGen) scope(n *node) string {
@@ -96,7 +99,11 @@ func (g *treeGen) leaf() *node {
 	r := g.r
 	n := &node{typ: "L"}
 	g.leafN++
-	switch r.Intn(20) {
+	x := r.Intn(21)
+	if g.watchBias && r.Chance(1, 3) {
+		x = 20
+	}
+	switch x {
 	case 0, 1, 2:
 		n.leaf, n.args = "status", []string{strconv.Itoa(statuses[r.Intn(len(statuses))])}
 	case 3, 4, 5, 6:
@@ -121,6 +128,8 @@ func (g *treeGen) leaf() *node {
 		n.leaf = "nop"
 	case 19:
 		n.leaf = "fail"
+	case 20:
+		n.leaf, n.args = "watch", []string{strconv.Itoa(g.leafN)}
 	}
 	n.scope = g.scope(n)
 	core.Count("leaf:" + n.leaf)
@@ -131,11 +140,23 @@ func (g *treeGen) node(depth int) *node {
 	r := g.r
 	x := r.Intn(100)
 	switch {
-	case depth >= 4 || x < 55:
+	case depth >= 4 || x < 52:
 		return g.leaf()
-	case x < 80:
-		n := &node{typ: "F", cond: pick(r, []string{"header", "header", "url", "method"})}
+	case x < 58:
+		n := &node{typ: "P"}
+		k := r.Range(0, 3)
+		for i := 0; i < k; i++ {
+			n.kids = append(n.kids, g.node(depth+1))
+			n.prio = append(n.prio, r.Range(-1, 2))
+		}
+		n.scope = g.scope(n)
+		core.Count("priority-group")
+		return n
+	case x < 81:
+		n := &node{typ: "F", cond: pick(r, []string{"header", "header", "url", "method", "qs"})}
 		switch n.cond {
+		case "qs":
+			n.args = []string{pick(r, []string{"k", "j", "z"}), pick(r, []string{"", "v", "w", "1"})}
 		case "header":
 			n.args = []string{pick(r, hnames), pick(r, hvalues)}
 		case "url":
@@ -164,8 +185,20 @@ func (g *treeGen) node(depth int) *node {
 	}
 }
 
-func genTree(r *core.Rand) *node {
-	g := &treeGen{r: r}
+func genTree(r *core.Rand) *node { return genTreeB(r, false) }
+
+// genTreeB with watch: trees for the concurrent cases. Half of them have a filter or a bare leaf at
+// the root (no fifo.Group lock between martianhttp.Modifier and the verifiers).
+func genTreeB(r *core.Rand, watch bool) *node {
+	g := &treeGen{r: r, watchBias: watch}
+	if watch && r.Bool() {
+		for i := 0; i < 8; i++ {
+			if n := g.node(0); n.typ == "F" || (n.typ == "L" && n.leaf == "watch") {
+				n.scope = "d"
+				return n
+			}
+		}
+	}
 	// the root is a group or a filter most of the time
 	for i := 0; i < 4; i++ {
 		n := g.node(0)
@@ -189,7 +222,7 @@ func treeOp(r *core.Rand, n *node) string {
 }
 
 func genCase(r *core.Rand, conc bool) []string {
-	ops := []string{treeOp(r, genTree(r))}
+	ops := []string{treeOp(r, genTreeB(r, conc))}
 	id := 0
 	n := r.Range(8, 40)
 	for i := 0; i < n; i++ {
@@ -220,19 +253,64 @@ func genCase(r *core.Rand, conc bool) []string {
 	return ops
 }
 
+// genE2E: one end-to-end case (see e2e.go): everything is a real HTTP request through a real proxy.
+func genE2E(r *core.Rand) []string {
+	ops := []string{"tree e " + strings.Join(genTree(r).tokens(), " ")}
+	id := 0
+	n := r.Range(8, 30)
+	for i := 0; i < n; i++ {
+		x := r.Intn(100)
+		switch {
+		case x < 60:
+			m := genMsg(r, id)
+			id++
+			m.api, m.scheme = false, "http"
+			if m.path == "" {
+				m.path = "/"
+			}
+			for _, h := range []*[][]string{&m.reqH, &m.resH} {
+				var keep [][]string
+				for _, e := range *h {
+					if len(e) >= 2 {
+						keep = append(keep, e)
+					}
+				}
+				*h = keep
+			}
+			ops = append(ops, m.op())
+		case x < 76:
+			ops = append(ops, "q")
+		case x < 86:
+			ops = append(ops, "r")
+		case x < 90:
+			ops = append(ops, "cget")
+		case x < 93:
+			ops = append(ops, "qbad")
+		case x < 96:
+			ops = append(ops, "rbad")
+		default:
+			ops = append(ops, "r", "q")
+		}
+	}
+	return append(ops, "q", "r", "q")
+}
+
 func (P) Gen(r *core.Rand, tier string, emit func([]string)) {
 	// core.NewRand(seed) starts at seed*γ and steps by γ, so the streams of consecutive seeds are one
 	// draw apart and re-synchronise; restart from a mixed value to make seeds independent.
 	r = core.NewRand(r.U64())
-	nSeq, nConc, nURL := 450, 60, 6
+	nSeq, nConc, nURL, nE2E := 450, 60, 6, 30
 	if tier == "thorough" {
-		nSeq, nConc, nURL = 12000, 1500, 100
+		nSeq, nConc, nURL, nE2E = 12000, 1500, 100, 600
 	}
 	for i := 0; i < nSeq; i++ {
 		emit(genCase(r, false))
 	}
 	for i := 0; i < nConc; i++ {
 		emit(genCase(r, true))
+	}
+	for i := 0; i < nE2E; i++ {
+		emit(genE2E(r))
 	}
 	for i := 0; i < nURL; i++ {
 		var ops []string
